@@ -575,6 +575,19 @@ static bool runBatch(const Case& cs, Model* model, CholCtx* chol, int seed, int 
     }
     case S_FFT:
     {
+      if (cs.fftPercent > 1.)
+      {
+        // long-range class: many realisations are needed and the spectral preparation dominates the cost of a call:
+        // nb simulations per call (one output variable per simulation)
+        auto db      = buildDb(cs.sp);
+        int ncol0    = db->getColumnNumber();
+        DbGrid* grid = dynamic_cast<DbGrid*>(db.get());
+        SimuFFTParam par(cs.fftAlias, cs.fftPercent);
+        int s2 = 1 + (int)(((unsigned)seed * 2654435761u) % 2000000000u);
+        if (s2 % 20000159 == 0) s2++;
+        if (simfft(grid, model, par, nb, s2) != 0) return false;
+        return collectNew(db.get(), ncol0, 1, nb, S, true, z);
+      }
       // one simulation per call, each with its own seed (simfft(nbsimu > 1) used to return only the first one)
       z.clear();
       for (int k = 0; k < nb; k++)
@@ -731,6 +744,19 @@ static void fieldCase(Rng& r, Ctx& c, int sim, int variant)
       cs.lagCls = {"variance", "cov-major", "cov-major", "cov-major", "cov-other", "cov-other", "cov-other"};
       cs.sig    = fmt("simfft:grid3d-%d:c0=%s:sill%s", n3, t3.c_str(), sill < 1 ? "<1" : ">1");
     }
+    else if (variant == 4)
+    {
+      // long range and loose 'percent': the discrete periodic covariance has negative spectral terms, which CalcSimuFFT::_prepar
+      // clips before rescaling the positive ones. The field is almost fully correlated over the grid: many realisations
+      // are needed (they are cheap), the bound comes from the same formula
+      gridSupport(cs.sp, 2, {n, n}, 1.);
+      drawGridModel(r, cs, {"CUBIC"}, 1, false, 0, 0., 0, r.uni(1.8, 2.2) * n);
+      // only the mean and the variance are judged in this class: with a range of two grid sizes the periodic embedding leaves a
+      // systematic error of several % of the sill on the lagged covariances (measured on the unchanged tree), too close to the
+      // allowance to be asserted
+      cs.lags   = {{0, 0}};
+      cs.lagCls = {"variance"};
+    }
     else
     {
     if (variant == 2) gridSupport(cs.sp, 2, {n + 4, n - 3}, 1.);
@@ -738,13 +764,13 @@ static void fieldCase(Rng& r, Ctx& c, int sim, int variant)
     drawGridModel(r, cs, {"SPHERICAL", "EXPONENTIAL", "GAUSSIAN", "CUBIC", "MATERN"}, 1, false, variant == 1 ? 1 : 0, 0., 0,
                   r.uni(0.125, 0.17) * n);
     }
-    support       = variant == 3 ? "grid-cubic-3d:iso" : variant == 2 ? "grid-nonsquare" : variant == 1 ? "grid-square:aniso" : "grid-square:iso";
+    support       = variant == 4 ? "grid-square:long-range" : variant == 3 ? "grid-cubic-3d:iso" : variant == 2 ? "grid-nonsquare" : variant == 1 ? "grid-square:aniso" : "grid-square:iso";
     fftClass      = variant == 2 ? "grid-nonsquare" : variant == 1 ? "anisotropy-ignored" : "";
     meanProbe     = variant == 0;
     cs.fftAlias   = r.coin(0.7);
-    cs.fftPercent = 0.1;
-    cs.R          = th ? 4000 : 800;
-    cs.batch      = 10;
+    cs.fftPercent = variant == 4 ? 50. : 0.1;
+    cs.R          = variant == 4 ? (th ? 40000 : 20000) : th ? 4000 : 800;
+    cs.batch      = variant == 4 ? 250 : 10;
     cs.sig += fmt(":alias=%d", (int)cs.fftAlias);
   }
   else if (sim == S_SPECTRAL)
@@ -1291,7 +1317,7 @@ static void run_case(Rng& r, Ctx& c)
     case 5: fieldCase(r, c, S_TUB, 1); break;
     case 6: fieldCase(r, c, S_TUB, (c.icase / 16) % 2 ? 2 : 3); break;
     case 7: fieldCase(r, c, S_FFT, 0); break;
-    case 8: { int b3 = (int)((c.icase / 16) % 3); fieldCase(r, c, S_FFT, b3 == 0 ? 2 : b3 == 1 ? 1 : 3); break; }
+    case 8: { int b4 = (int)((c.icase / 16) % 4); fieldCase(r, c, S_FFT, b4 == 0 ? 2 : b4 == 1 ? 1 : b4 == 2 ? 3 : 4); break; }
     case 9: fieldCase(r, c, S_SPECTRAL, (int)((c.icase / 16) % 4)); break;
     case 10: fieldCase(r, c, S_CHOL, (int)((c.icase / 16) % 5)); break;
     case 11: fieldCase(r, c, S_SPDE, 0); break;
